@@ -1,4 +1,4 @@
 SPECIFICATION Spec
-CONSTANTS Proto = "socks"  NoneOK = FALSE  AuthFirst = TRUE  KeepBuffered = TRUE  Cut = TRUE
+CONSTANTS Proto = "socks"  NoneOK = FALSE  AuthFirst = TRUE  KeepBuffered = TRUE  SharedBuf = FALSE  Cut = TRUE
 INVARIANT NoViolation
 CHECK_DEADLOCK FALSE
